@@ -164,6 +164,23 @@ def genC12Cases (tier : String) (seed : Nat) : Array Case := Id.run do
     let a := (convArgs text v).setObjVal! "reps" (5 : Nat) |>.setObjVal! "fresh3" (i % 5 == 0 : Bool)
     out := out.push { id := s!"c12-{i}", op := "conv", args := a, tag := if kf ≠ "" then "wAND-inside-combination" else if i % 5 = 0 then "5-reps+3-processes" else "5-reps",
                       note := Json.mkObj [("kf", (kf : Json))] }
+  -- several constructs of one kind side by side (their order of attachment must not depend on
+  -- anything but the text): repeated more often, in one process and in fresh ones
+  let sides : List String := [
+    "A(officer) I(acts) Cac{Cac{A(a) I(b)} [OR] Cac{A(c) I(d)}} Cac{Cac{A(e) I(f)} [AND] Cac{A(g) I(h)}}",
+    "A(officer) I(acts) Cex{Cex{A(a) I(b)} [XOR] Cex{A(c) I(d)}} Cex[kind=x]{Cex{A(e) I(f)} [OR] Cex{A(g) I(h)}} Bdir(thing)",
+    "A(x) I(y) Bdir{A(officer) I(acts) Cac{Cac{A(a) I(b)} [OR] Cac{A(c) I(d)}} Cac{Cac{A(e) I(f)} [AND] Cac{A(g) I(h)}}}",
+    "A(inspector) D(may) I(review) Bdir(records) Bdir,p{Bdir,p{E(records) F(are) P(complete)} [XOR] Bdir,p{E(records) F(are) P(audited)}}",
+    "A(actor) I(act) Bind,p{Bind,p{A(a) I(b)} [OR] Bind,p{A(c) I(d)}} Bind(someone) P,p{P,p{A(e) I(f)} [AND] P,p{A(g) I(h)}} P(part)",
+    "A(actor) I(act) Cac{A(a) I(b)} Cac{A(c) I(d)} Cac{A(e) I(f)} Bdir{A(g) I(h)} Bdir{A(i) I(j)}",
+    "A1(x) A1,p(p1) A1,p(p2) A1,p(p3) A2(y) A2,p(q1) A2,p(q2) I(act) A,p(shared one) A,p(shared two)"]
+  let mut k := 0
+  for t in sides do
+    for v in [0, 4, 28] do
+      let a := (convArgs t v).setObjVal! "reps" (16 : Nat) |>.setObjVal! "fresh3" (true : Bool)
+      out := out.push { id := s!"c12-side{k}-{v}", op := "conv", args := a, tag := "side-by-side-16-reps+3-processes",
+                        note := Json.mkObj [("kf", ("" : Json))] }
+    k := k + 1
   pure out
 
 def judgeC12 (_c : Case) (o : ObsLine) : Verdict :=
